@@ -24,15 +24,23 @@ def ob(name, freq, defs, npop=6, **kw):
     o.update(kw)
     return o
 Q = ('quick', 'thorough'); T = ('thorough',)
+def small(name, freq, defs, **kw):
+    """cache of 2: every refill keeps one occurrence as the seed and hands out one, so 3 pops = 3 refills"""
+    o = ob(name, freq, defs, npop=3, **kw)
+    o['defs'] = [d if not d.startswith('ECHSE_VERIF_CCH') else 'ECHSE_VERIF_CCH=2U' for d in o['defs']]
+    o['bounds'] = '3 pops over a cache of 2 (3 refills); ' + ' '.join(defs)
+    o['stubs'] = ['hook ECHSE_VERIF_CCH=2'] + o['stubs'][1:]
+    return o
 OBLIGATIONS = [
-    ob('hourly_restart', 5, ['RESTART', 'EXPECT_REFILLS'], npop=6),
-    ob('daily_restart', 4, ['RESTART', 'EXPECT_REFILLS'], npop=6),
-    ob('daily_byhour2_restart', 4, ['RESTART', 'NH=2', 'EXPECT_REFILLS'], npop=6, tiers=T),
-    ob('daily_count', 4, ['WITH_COUNT'], npop=6),
-    ob('daily_until', 4, ['WITH_UNTIL'], npop=6, tiers=T),
-    ob('weekly_restart', 3, ['RESTART', 'EXPECT_REFILLS'], npop=6, tiers=T),
-    ob('monthly_bymonthday1_restart', 2, ['RESTART', 'NDOM=1', 'EXPECT_REFILLS'], npop=5, tiers=T, mem_gb=20, timeout=3000),
-    ob('yearly_restart', 1, ['RESTART', 'EXPECT_REFILLS'], npop=5, tiers=T, mem_gb=20, timeout=3000),
-    ob('monthly_shift3_restart', 2, ['RESTART', 'SHIFTD=3', 'EXPECT_REFILLS'], npop=5, tiers=T, mem_gb=20, timeout=3000),
-    ob('daily_interval2_restart', 4, ['RESTART', 'INTER=2', 'EXPECT_REFILLS'], npop=6, tiers=T),
+    small('secondly_restart_c2', 7, ['RESTART', 'EXPECT_REFILLS'], timeout=1200),
+    small('hourly_restart_c2', 5, ['RESTART', 'EXPECT_REFILLS'], timeout=1500),
+    small('daily_count_c2', 4, ['WITH_COUNT'], timeout=1500),
+    ob('hourly_restart', 5, ['RESTART', 'EXPECT_REFILLS'], npop=5, tiers=T, timeout=3400),
+    ob('daily_restart', 4, ['RESTART', 'EXPECT_REFILLS'], npop=5, tiers=T, timeout=3400),
+    ob('daily_byhour2_restart', 4, ['RESTART', 'NH=2', 'EXPECT_REFILLS'], npop=5, tiers=T, timeout=3400),
+    ob('daily_until', 4, ['WITH_UNTIL'], npop=5, tiers=T, timeout=3400),
+    ob('weekly_restart', 3, ['RESTART', 'EXPECT_REFILLS'], npop=5, tiers=T, timeout=3400, mem_gb=20),
+    ob('monthly_bymonthday1_restart', 2, ['RESTART', 'NDOM=1', 'EXPECT_REFILLS'], npop=5, tiers=T, mem_gb=24, timeout=3400),
+    ob('monthly_shift3_restart', 2, ['RESTART', 'SHIFTD=3', 'EXPECT_REFILLS'], npop=5, tiers=T, mem_gb=24, timeout=3400),
+    ob('daily_interval2_restart', 4, ['RESTART', 'INTER=2', 'EXPECT_REFILLS'], npop=5, tiers=T, timeout=3400),
 ]
